@@ -513,8 +513,6 @@ def expected (cv : Nat → Nat → Nat) (m : Nat) (r : Reader) (wire : List WByt
     | ([], .bad) => .err .invalidData
     | ([], _) => .ready []
 
-theorem poll_eq {α : Type} : ∀ {a b : Poll α}, a = b → True := fun _ => trivial
-
 theorem pollRead_generous (cv) (m : Nat) (script : List RdEv) (r : Reader) (wire : List WByte) (hi : RInv r)
     (hg : Generous script) (hl : wire.length < script.length) :
     ∃ o, pollRead cv m script r wire = .ok o ∧ o.res = expected cv m r wire := by
